@@ -213,6 +213,19 @@ def add_clause(b, kw, rest, path, ln):
         tags = set(m.group(1).split()) if m else {'support'}
         b.ensures.append((tags, rest[m.end():] if m else rest, -1))
         b.tags |= tags
+    elif kw == 'ensures-named':
+        # 'ensures-named NAME [tags] clause': an ordinary postcondition (enforced, and assumed where the function is
+        # replaced) stated at the ghost element index ge.  ge is an unconstrained input that no extracted code reads, so the
+        # enforced clause holds for EVERY value of ge; a caller may therefore use further substitution instances of it
+        # ('loop N instance <block>.NAME ge:=<term> ret:=<local holding the result> ...') at the start of a loop iteration,
+        # provided the local is not assigned by the loop (checked against the loop's assigns clause).
+        nm, _, rest2 = rest.partition(' ')
+        m = TAG_RE.match(rest2)
+        tags = set(m.group(1).split()) if m else {'support'}
+        text = rest2[m.end():] if m else rest2
+        b.ensures.append((tags, text))
+        b.tags |= tags
+        b.named = dict(getattr(b, 'named', {}), **{nm: text})
     elif kw == 'ensures':
         m = TAG_RE.match(rest)
         tags = set(m.group(1).split()) if m else {'support'}
@@ -253,6 +266,11 @@ def add_clause(b, kw, rest, path, ln):
         d.setdefault('instance', [])
         if k2 == 'invariant':
             d['invariant'].append(r2)
+        elif k2 == 'case':
+            # 'loop N case <condition>': the loop step is proved twice, once under the condition (block NAME#case1, built
+            # with -DBS_CASESEL=1) and once under its negation (block NAME, BS_CASESEL=0).  The two cases are exhaustive, so
+            # together they are the unsplit obligation; load_blocks() refuses a block whose twin is missing.
+            d.setdefault('case', []).append(r2)
         elif k2 == 'instance':
             # 'loop N instance NAME <term> [x:=y ...]': at the start of every iteration, the instance k := <term> of axiom NAME
             d['instance'].append(r2)
@@ -273,6 +291,8 @@ def add_clause(b, kw, rest, path, ln):
         b.timeout = int(rest)
     elif kw == 'unwind':
         b.unwind = int(rest)
+    elif kw == 'only':
+        b.only_re = rest
     elif kw == 'split':
         b.split = True
     elif kw == 'noinit':
@@ -317,6 +337,13 @@ def load_blocks():
             b.mode = 'EXACT'
             extra.append(b2)
     out += extra
+    for b in out:
+        if any(lc.get('case') for lc in b.loops.values()):
+            twin = b.fn + '#case1' if '#' not in b.name else b.fn
+            want = 'BS_CASESEL=%d' % (0 if '#' not in b.name else 1)
+            if want not in getattr(b, 'defines', []) or not any(x.name == twin and x.mode == b.mode for x in out):
+                raise Undecided('contract block %s splits a loop step into cases: it needs `define %s` and the twin block %s'
+                                % (b.name, want, twin))
     names = {}
     for b in out:
         key = (b.name, b.mode)
@@ -346,7 +373,7 @@ def clause_lines(b, enforce=True):
     return out
 
 
-def loop_clauses(b):
+def loop_clauses(b, byname=None):
     d = {}
     for n, lc in b.loops.items():
         cl = []
@@ -354,18 +381,36 @@ def loop_clauses(b):
             cl.append('__CPROVER_assigns(%s)' % lc['assigns'])
         for inv in lc['invariant']:
             cl.append('__CPROVER_loop_invariant(%s)' % inv)
+        for cs in lc.get('case') or []:
+            cl.append('@@__CPROVER_assume(BS_CASESEL ? (%s) : !(%s)); /* case split, both cases are proved: blocks %s and %s#case1 */'
+                      % (cs, cs, b.fn, b.fn))
         for ins in lc.get('instance') or []:
             parts = ins.split()
-            nm, term, subs = parts[0], parts[1], parts[2:]
-            if nm not in b.axioms:
-                raise Undecided('contract block %s: instance of the unknown axiom %s' % (b.name, nm))
-            bound, body = b.axioms[nm]
-            txt = '!((%s) < (%s)) || (%s)' % (term, bound, body.replace('{k}', '(%s)' % term))
+            nm, rest_ = parts[0], parts[1:]
+            if '.' in nm:
+                # instance of a named ghost-index postcondition of a replaced callee
+                cbn, cl_ = nm.rsplit('.', 1)
+                cb_ = (byname or {}).get(cbn)
+                if cb_ is None or cl_ not in getattr(cb_, 'named', {}):
+                    raise Undecided('contract block %s: instance of the unknown clause %s' % (b.name, nm))
+                if cbn not in b.replace:
+                    raise Undecided('contract block %s: %s is not used through its contract' % (b.name, cbn))
+                txt, subs, what = cb_.named[cl_], rest_, 'clause'
+                tgt = [su.split(':=')[1] for su in subs if su.startswith('ret:=')]
+                asg = [x.strip() for x in (lc.get('assigns') or '').split(',')]
+                if not tgt or tgt[0] in asg:
+                    raise Undecided('contract block %s: instance of %s needs ret:=<local not assigned by the loop>' % (b.name, nm))
+            else:
+                term, subs, what = rest_[0], rest_[1:], 'axiom'
+                if nm not in b.axioms:
+                    raise Undecided('contract block %s: instance of the unknown axiom %s' % (b.name, nm))
+                bound, body = b.axioms[nm]
+                txt = '!((%s) < (%s)) || (%s)' % (term, bound, body.replace('{k}', '(%s)' % term))
             for su in subs:
                 x, y = su.split(':=')
-                txt = re.sub(r'\b%s\b' % re.escape(x), y, txt)
+                txt = re.sub(r'\b%s\b' % re.escape(x), '(%s)' % y, txt)
             # '@@' = a statement at the start of the loop body (fe/bs2c.py), not a loop-contract clause
-            cl.append('@@__CPROVER_assume(%s); /* instance %s of axiom %s */' % (txt, term, nm))
+            cl.append('@@__CPROVER_assume(%s); /* instance of %s %s */' % (txt, what, ins))
         if lc.get('decreases'):
             cl.append('__CPROVER_decreases(%s)' % lc['decreases'])
         d['loop%d' % n] = cl
@@ -416,7 +461,7 @@ def get_unit(unit, blocks, mode):
     for b in blocks:
         if b.kind == 'function' and (b.mode == mode or (mode != 'IEEE' and b.mode == 'EXACT')):
             if '#' not in b.name or b.name not in ctrs:
-                ctrs.setdefault(b.fn, {}).update(loop_clauses(b))
+                ctrs.setdefault(b.fn, {}).update(loop_clauses(b, {x.name: x for x in blocks if x.kind == 'function'}))
     u.contracts = ctrs
     u.cty(bs2c.parse_type('std::shared_ptr<std::vector<double>>'))
     u.cty(bs2c.Ty('__gnu_cxx::__normal_iterator', [bs2c.Ty('double'), bs2c.Ty('std::vector', [bs2c.Ty('double')])]))
@@ -913,6 +958,9 @@ def decide(gb, b, tmo, only=None, extra=None, single=None):
         return None, '; '.join('%s:%s %s' % (o['solver'], o['status'], (o.get('msg') or '')[:200]) for o in outs)
     if only is not None:
         props = [p for p in props if p in set(only)]
+    if getattr(b, 'only_re', None):
+        # a case twin decides only the obligations the case assumption can influence; the others are the twin block's
+        props = [p for p in props if re.search(b.only_re, p)]
     hard = [p for p in props if HARD_RE.search(p) and '__CPROVER_contracts' not in p]
     easy = [p for p in props if p not in hard]
     merged = {}
@@ -1085,9 +1133,10 @@ def _cache_key(r):
     b = r.block
     txt = open(r.cfile).read()
     txt = re.sub(r'/\*[^*\n]*\*/', '', txt)      # provenance comments (paths, line ranges)
+    txt = txt.replace(ROOT, '$ROOT')             # (a campaign runs from a snapshot of the committed /verif elsewhere)
     cfg = repr((b.name, b.mode, b.kind, b.fn, getattr(b, 'defines', []), b.bounded, getattr(b, 'cap', 8), getattr(b, 'canarycap', None),
                 b.solvers, getattr(b, 'replace_eff', b.replace), getattr(b, 'recursive', False), b.noharness, b.timeout, TIMEOUT, FAST_TIMEOUT,
-                getattr(b, 'unwind', None), getattr(b, 'split', None)))
+                getattr(b, 'unwind', None), getattr(b, 'split', None), getattr(b, 'only_re', None)))
     h = hashlib.sha256()
     for part in (txt, cfg) + tuple(open(os.path.join(ROOT, 'rt', f)).read() for f in sorted(os.listdir(os.path.join(ROOT, 'rt')))):
         h.update(part.encode())
@@ -1278,7 +1327,11 @@ def _run_block(r, blocks, keep=False, verbose=False):
             n_assert = sum(x.count('__CPROVER_assert(') for x in (b.body + b.post)) + 1
             ccap = getattr(b, 'canarycap', getattr(b, 'cap', 8))
             cun = small_unwind_args(base + '.d.gb', cfile, ccap) if ccap < 8 else ['--unwind', '10']
-            co = portfolio(base + '.d.gb', b.solvers or SOLVERS, cun + ['--object-bits', '16', '--property', '%s.assertion.%d' % (hname, n_assert)], tmo)
+            cargs = cun + ['--object-bits', '16', '--property', '%s.assertion.%d' % (hname, n_assert)]
+            co = portfolio(base + '.d.gb', b.solvers or SOLVERS, cargs, tmo)
+            if not any(x['status'] in ('done', 'abort-sat') for x in co):
+                # no answer (a loaded machine): once more with twice the time before the block is called undecided
+                co = portfolio(base + '.d.gb', b.solvers or SOLVERS, cargs, 2 * tmo)
             if any(x['status'] == 'done' and not any('[canary]' in (p.get('description') or '') for p in x['results']) for x in co):
                 co = [{'solver': '-', 'status': 'error', 'msg': 'canary property not found'}]
             cd = [x for x in co if x['status'] == 'done']
